@@ -91,13 +91,14 @@ theorem solDataArea_prefix (st : Word → Word) (k : Word) (n : Nat) :
     simp only [solDataArea]
     rw [h, List.append_assoc]
 
-theorem slotCount_bounds (len : Nat) : len ≤ 32 * slotCount len ∧ slotCount len ≤ len / 32 + 1 := by
-  unfold slotCount; split <;> omega
+theorem slotCount_bounds (len : Nat) (hl : len ≤ U64 - 32) : len ≤ 32 * slotCount len ∧ slotCount len ≤ len / 32 + 1 := by
+  have hU := U64_eq
+  unfold slotCount; rw [Nat.mod_eq_of_lt (by omega)]; omega
 
 /-- the model's read of `⌈len/32⌉` slots, cut to `len`, is the specification's data area cut to `len` -/
-theorem take_dataArea (st : Word → Word) (k : Word) (len : Nat) :
+theorem take_dataArea (st : Word → Word) (k : Word) (len : Nat) (hl : len ≤ U64 - 32) :
     (solDataArea st k (slotCount len)).take len = (solDataArea st k (len / 32 + 1)).take len := by
-  obtain ⟨h1, h2⟩ := slotCount_bounds len
+  obtain ⟨h1, h2⟩ := slotCount_bounds len hl
   obtain ⟨tl, h⟩ := solDataArea_prefix st k (slotCount len) (len / 32 + 1 - slotCount len)
   have : slotCount len + (len / 32 + 1 - slotCount len) = len / 32 + 1 := by omega
   rw [this] at h
@@ -128,7 +129,7 @@ theorem take_bytes32_mask (w len : Nat) (hw : w < W256) (hl : len ≤ 31) :
 theorem c09_string_exact (env : JEnv) (tr : Tracer) (slot typeId : Word) (b : Bytes)
     (hst : env.storage slot < W256)
     (hcap : ∀ n, n ≤ env.appendCap n)
-    (hlen : env.storage slot / 2 < U64)
+    (hlen : env.storage slot / 2 ≤ U64 - 32)
     (h : solString env.storage env.keccak slot = some b) :
     (Journal.exec .vr [slot, typeId] env tr).1 =
       liftKey (tr.saveStateChange env.contract slot none typeId b) := by
@@ -144,10 +145,10 @@ theorem c09_string_exact (env : JEnv) (tr : Tracer) (slot typeId : Word) (b : By
       have c' : ¬ (env.storage slot / 2 < 32) := by omega
       simp only [c', if_false]
       rw [readSlots_eq_solDataArea]
-      have hl := slotCount_bounds (env.storage slot / 2)
+      have hl := slotCount_bounds (env.storage slot / 2) hlen
       rw [goSlice_take _ _ _ (by rw [solDataArea_length]; exact hl.1) (hcap _)]
       simp only
-      rw [take_dataArea]
+      rw [take_dataArea _ _ _ hlen]
       have hb : b = (solDataArea env.storage (env.keccak (beBytes 32 (slot % W256))) (env.storage slot / 2 / 32 + 1)).take (env.storage slot / 2) := by
         exact (Option.some.inj h).symm
       rw [hb]; rfl
@@ -191,16 +192,18 @@ theorem c09_string_rejects (env : JEnv) (tr : Tracer) (slot typeId : Word)
     simp only [c, if_false]
     exact ⟨_, _, rfl⟩
 
-/-- A long-form length of 2^64 or more cannot be loaded and is rejected (the guard `hlen` of `c09_string_exact`). -/
+/-- A long-form length above 2^64 - 32 cannot be loaded — its slot count `(len+31)/32` would wrap around in uint64 arithmetic
+    (`c09_slotcount_wraps`) — and is rejected (the guard `hlen` of `c09_string_exact`; repair D21 for the lengths below 2^64). -/
 theorem c09_string_huge_rejected (env : JEnv) (tr : Tracer) (slot typeId : Word)
-    (hodd : env.storage slot % 2 = 1) (hl : env.storage slot / 2 ≥ U64) :
+    (hodd : env.storage slot % 2 = 1) (hl : env.storage slot / 2 > U64 - 32) :
     ∃ e w, Journal.exec .vr [slot, typeId] env tr = (.err e, w) := by
   simp only [Journal.exec]
-  have : extractStorageLen (env.storage slot) = .error "storage too large to load" := by
-    unfold extractStorageLen
-    have h1 : ¬ (env.storage slot / 2 < 32) := by unfold U64 at hl; omega
-    simp [hodd, h1, hl]
-  rw [this]; exact ⟨_, _, rfl⟩
+  rw [extractStorageLen_huge _ hodd hl]; exact ⟨_, _, rfl⟩
+
+/-- why the guard is needed: for the largest 64-bit length the code's slot count is 0 (before the repair the empty result was
+    then cut to that length: a slice-bounds panic) -/
+theorem c09_slotcount_wraps : slotCount (U64 - 1) = 0 ∧ slotCount (U64 - 31) = 0 ∧ slotCount (U64 - 32) = U64 / 32 - 1 := by
+  decide
 
 /-! ### non-vacuity: concrete states meeting the hypotheses -/
 
